@@ -260,6 +260,17 @@ func genVC(P *Program, C *Contracts, S *Sorts, key string, pure map[*ssa.Functio
 		}
 		envPost := f.contractEnv(ct, bind, f.st, entry)
 		for _, e := range ct.Ensures {
+			assumedClause := false
+			for _, t := range e.Tags {
+				if t == "assumed" {
+					assumedClause = true
+				}
+			}
+			if assumedClause {
+				// ensures[assumed]: used at call sites, not proved for the function itself (listed in the evidence)
+				ex.note("assumed clause (not proved): " + key + "#ensures#" + e.Label)
+				continue
+			}
 			env := envPost
 			envGhost := map[string]string{}
 			if len(e.Ghost) > 0 {
